@@ -52,6 +52,36 @@ let handle (line : string) : string =
       | Ok c -> "ok " ^ show_ids c
       | Err _ -> "out-of-fuel"
       | Panic -> "panic")
+  | [ "c15v"; classes; pts; flags; sorted; zclose; rbits ] -> (
+      let ncls = count_classes classes in
+      let fl = Array.of_list (split ',' flags) in
+      let long_enough t = fl.(n_int t).[0] = '1' and close_beam t = fl.(n_int t).[1] = '1' in
+      (* oracle for sort_unstable_by: the order the implementation produced on this case (checked to be a
+         rearrangement of the argument), or its panic *)
+      let oracle_ok = ref true in
+      let sort_f l =
+        if sorted = "panic" then Panic
+        else
+          let s = ids sorted in
+          let key l = List.sort compare (List.map n_int l) in
+          if key s = key l then Ok s
+          else begin
+            oracle_ok := false;
+            Panic
+          end
+      in
+      let zc = near_fun ncls zclose in
+      let r = Array.of_list (List.map (fun h -> Int64.float_of_bits (Int64.of_string ("0x" ^ h))) (split ',' rbits)) in
+      let sum l = List.fold_left (fun a t -> a +. r.(n_int t)) (-0.0) l in
+      let cmp_r a b =
+        let x = sum a and y = sum b in
+        if x <> x || y <> y then Panic else Ok (if x < y then Lt else if x > y then Gt else Eq)
+      in
+      match find_vertices long_enough close_beam sort_f zc cmp_r (fun _ -> Ok ()) (ids pts) with
+      | Ok (v, rem) ->
+          Printf.sprintf "ok %s | %s" (match v with Some c -> show_ids c | None -> "none") (show_ids rem)
+      | Err _ -> "err"
+      | Panic -> if !oracle_ok then "panic" else "bad-oracle")
   | tag :: _ when String.length tag >= 3 && String.sub tag 0 3 = "rel" -> "holds"
   | _ -> "unknown-case"
 
